@@ -59,6 +59,33 @@ def rule_h1(chk: Check, I):
     funcs = {s for s, a in seen}
     chk.require(funcs == {X("path_literal")}, "H1-translation-shape", 'p"…"', f"{repo.SUBHEADER} (Parser.concatenate_strings)",
                 f"a path literal must become a call of {X('path_literal')}; calls built: {sorted(funcs)}")
+    # help chains `a?.b??`: each link is translated by its own operator — inside a loop over the links, the function name
+    # handed to xonsh_call must be computed from that iteration's token, not carried in from outside the loop
+    from ..pyflow import Index, own_nodes
+    import ast as _ast
+    f = Index().get("Parser.expand_help")
+    n_links = 0
+    for loop in [n for n in own_nodes(f.node) if isinstance(n, _ast.For)]:
+        bound = {x.id for x in _ast.walk(loop.target) if isinstance(x, _ast.Name)}
+        for c in [n for st in loop.body for n in _ast.walk(st) if isinstance(n, _ast.Call) and norm_stmt(n.func) == "xonsh_call" and n.args]:
+            n_links += 1
+            chk.count("H1-translation-shape")
+            names = {x.id for x in _ast.walk(c.args[0]) if isinstance(x, _ast.Name)}
+            ok = True
+            why = ""
+            for nm in names:
+                defs_in = [a for st in loop.body for a in _ast.walk(st) if isinstance(a, _ast.Assign) and any(
+                    isinstance(t, _ast.Name) and t.id == nm for t in a.targets) and a.lineno < c.lineno]
+                if nm in bound:
+                    continue
+                if not defs_in or not any(bound & {x.id for x in _ast.walk(a.value) if isinstance(x, _ast.Name)} for a in defs_in):
+                    ok = False
+                    why = nm
+            chk.require(ok, "H1-translation-shape", f"Parser.expand_help:link-operator:{norm_stmt(c.args[0])[:40]}", f"{f.rel}:{c.lineno}",
+                        f"the runtime function of a chained help link is `{norm_stmt(c.args[0])}`, where `{why}` is not computed from this "
+                        f"link's own `?`/`??` token: `a?.b??` would reuse the first operator for every link")
+    if not n_links:
+        raise AnalysisError("H1: no per-link xonsh_call found in Parser.expand_help")
     chk.floor("H1-translation-shape", 8)
 
 
@@ -238,4 +265,9 @@ def run(chk: Check):
     c06.rule_p4(chk, ix, tr.interp)
     macros.rule_n2(chk, ix, ir)
     c09.rule_k6(chk, constfold.fold_tokenize(), ix, False)
+    from .c01 import rule_lookahead_cover
+    from .c02 import rule_path_literal_gate, rule_path_literal_wrap
+    rule_lookahead_cover(chk, ir)
+    rule_path_literal_gate(chk)
+    rule_path_literal_wrap(chk)
     chk.floor("H2-placement", 7)
